@@ -767,6 +767,8 @@ static bool expand_macro(Token **rest, Token *tok) {
   if (m->handler) {
     *rest = m->handler(tok);
     (*rest)->next = tok->next;
+    (*rest)->at_bol = tok->at_bol;
+    (*rest)->has_space = tok->has_space;
     return true;
   }
 
